@@ -261,9 +261,9 @@ type node struct {
 }
 
 type cond struct {
-	op   string // helper name, or "and"/"or"/"not"
-	args []string
-	a, b *cond
+	op    string // helper name, or "and"/"or"/"not"
+	args  []string
+	a, b  *cond
 	onURL bool
 }
 
